@@ -364,10 +364,19 @@ theorem float_nonzero (l : Lit) (hw : l.WF) (c : UInt8) (I' : List UInt8) (hint 
       simp only [floatResultNZ, hF, Option.getD_some, List.length_cons]
       simp only [show (decide (some (46 : UInt8) = some 101) || decide (some (46 : UInt8) = some 69)) = false by decide,
         Bool.false_eq_true, if_false]
-      generalize (min (17 - ((if I'.length + 1 > 19 then 19 else I'.length + 1 : Nat) : Int)).toNat (f'.length + 1)) = t
-      congr 1
-      · congr 1; omega
-      · omega
+      by_cases h19 : I'.length + 1 > 19
+      · have ht : (17 - ((19 : Nat) : Int)).toNat = 0 := by decide
+        simp only [h19, if_true, ht, Nat.zero_min, decide_true, Bool.or_true, List.take_zero]
+        have : (0 : Nat) < f'.length + 1 := by omega
+        simp only [this, decide_true]
+        congr 1
+        · congr 1; omega
+        · omega
+      · simp only [h19, if_false, decide_false, Bool.or_false]
+        generalize (min (17 - ((I'.length + 1 : Nat) : Int)).toNat (f'.length + 1)) = t
+        congr 1
+        · congr 1; omega
+        · omega
 
 
 /-! ### literals `0.…` and `0e…` -/
